@@ -243,3 +243,16 @@ pub open spec fn w_len_after_c(growable: bool, len: int, pos: int, n: int) -> in
 pub open spec fn w_room_c(growable: bool, len: int, pos: int, n: int) -> bool {
     growable || pos + n <= len * 8
 }
+
+/// bits of a byte sub-range are the corresponding bit sub-range
+pub proof fn lemma_bits_of_subrange(bytes: Seq<u8>, a: int, b: int)
+    requires 0 <= a <= b <= bytes.len()
+    ensures bits_of(bytes.subrange(a, b)) =~= bits_of(bytes).subrange(8 * a, 8 * b)
+{
+    let sub = bytes.subrange(a, b);
+    assert forall|i: int| 0 <= i < (b - a) * 8 implies bits_of(sub)[i] == bits_of(bytes).subrange(8 * a, 8 * b)[i] by {
+        assert((8 * a + i) / 8 == a + i / 8);
+        assert((8 * a + i) % 8 == i % 8);
+        assert(sub[i / 8] == bytes[a + i / 8]);
+    }
+}
